@@ -188,7 +188,16 @@ func (a *Arith) Bin(op token.Token, n NumT, x, y *Term) *Term {
 	case token.SUB:
 		r = IntOp("-", x, y)
 	case token.MUL:
-		r = IntOp("*", x, y)
+		if x.IsConst() || y.IsConst() {
+			r = IntOp("*", x, y)
+		} else {
+			// a product of two symbolic values is an uninterpreted symbol with linear axiom
+			// instances (solve.go): congruence does most of the work and the query stays linear
+			if x.Key() > y.Key() {
+				x, y = y, x
+			}
+			r = App("umul", IntSort, x, y)
+		}
 	case token.QUO:
 		// Go truncates toward zero; SMT div is euclidean. Exact for x >= 0, y > 0.
 		a.side(And(IntCmp(">=", x, zero), IntCmp(">", y, zero)), "division operands non-negative (int mode)")
